@@ -5,10 +5,14 @@
 //! Random records of the types Presentation.tla / ZoneFile.tla model (TXT,
 //! HINFO, NS/CNAME/PTR/DNAME, MX, RFC 3597 generic), with names and strings
 //! over all 256 octet values and up to the length limits, are written by
-//! the library in its four forms and read back by the library's reader.
+//! the library in its four forms and read back by the library's reader;
+//! likewise the carriers of the restricted-alphabet token fields (CAA, NSEC,
+//! TLSA, NSEC3PARAM) over everything their constructors admit.
 //! One event per (record, kind): the record (wire), the text, the outcome.
 #[path = "../zf.rs"]
 mod zf;
+#[path = "../present_types.rs"]
+mod present_types;
 use serde_json::json;
 use verif_harness::common::*;
 
@@ -94,12 +98,57 @@ fn svcb(rng: &mut Rng) -> Vec<u8> {
     v
 }
 
+/// a number of the type's range: its ends, where the number of digits changes, or any
+fn bounded(rng: &mut Rng, max: u32) -> u32 {
+    match rng.below(4) {
+        0 => *rng.pick(&[0u32, 1, 9, 10, 99, 100, 249, 250, 255, 256, 999, 1000, 9999, 10000, 65529, 65530, 65535]) % (max + 1),
+        1 => max - rng.below(7) as u32,
+        _ => (rng.next() % (max as u64 + 1)) as u32,
+    }
+}
+
+/// Carrier records of the restricted-alphabet token fields, over everything
+/// the constructors admit: a CAA tag of ASCII letters (both cases) and digits,
+/// 1 to 255 characters; integers at and between the ends of their ranges; type
+/// bitmaps over mnemonics and TYPEnnn; salts of any octets, also none.
+fn field_record(rng: &mut Rng) -> (u16, Vec<u8>) {
+    const ALNUM: &[u8] = b"ABCDEFGHIJKLMNOPQRSTUVWXYZabcdefghijklmnopqrstuvwxyz0123456789AZaz09";
+    match rng.below(4) {
+        0 => {
+            let n = match rng.below(12) { 0 => 255, 1 => 1, _ => 1 + rng.below(15) as usize };
+            let tag: Vec<u8> = (0..n).map(|_| *rng.pick(ALNUM)).collect();
+            let val = octs(rng, 0, 12);
+            (257, [vec![bounded(rng, 255) as u8, n as u8], tag, val].concat())
+        }
+        1 => {
+            let k = rng.below(7) as usize;
+            let mut types: Vec<u16> = vec![];
+            while types.len() < k {
+                let t = match rng.below(3) { 0 => 1 + rng.below(65) as u16, 1 => *rng.pick(&[99u16, 100, 101, 102, 103, 104, 105, 106, 107, 108, 109, 128, 249, 250, 251, 252, 253, 254, 255, 256, 257, 258, 259, 260, 32768, 32769, 32770, 65535, 0]),
+                                              _ => rng.next() as u16 };
+                if !types.contains(&t) { types.push(t); }
+            }
+            (47, [name(rng), present_types::bitmap(&types)].concat())
+        }
+        2 => {
+            let k = 1 + rng.below(20) as usize;
+            (52, [vec![bounded(rng, 255) as u8, bounded(rng, 255) as u8, bounded(rng, 255) as u8], rng.bytes(k)].concat())
+        }
+        _ => {
+            let k = if rng.chance(1, 4) { 0 } else { 1 + rng.below(8) as usize };
+            (51, [vec![bounded(rng, 255) as u8, bounded(rng, 255) as u8], (bounded(rng, 65535) as u16).to_be_bytes().to_vec(),
+                  vec![k as u8], rng.bytes(k)].concat())
+        }
+    }
+}
+
 /// one random record: (owner, class, ttl, rtype, rdata), wire forms
 fn gen_record(rng: &mut Rng) -> (Vec<u8>, u16, u32, u16, Vec<u8>) {
     let owner = name(rng);
     let class = *rng.pick(&[1u16, 1, 1, 3, 4, 254, 255, 4660]);
     let ttl = *rng.pick(&[0u32, 1, 3600, 86400, 2147483647]);
-    let (rtype, rdata): (u16, Vec<u8>) = match rng.below(13) {
+    let (rtype, rdata): (u16, Vec<u8>) = match rng.below(18) {
+        13..=17 => field_record(rng),
         0 | 1 => (16, { let k = 1 + rng.below(3); (0..k).flat_map(|_| cs(rng)).collect() }),
         2 => (13, [cs(rng), cs(rng)].concat()),
         3 => (*rng.pick(&[2u16, 5, 12, 39]), name(rng)),
